@@ -19,14 +19,16 @@ ATTACH = [("src/lib.rs", "k_lib.rs", "verif_kani_lib"), ("src/range.rs", "k_rang
 
 GROUPS = {
     "K1": {
-        "what": "range::parse on the real `str` code (split / find / trim_start_matches / slicing), u64::from_str stubbed so every number "
-                "is an unconstrained u64 or unparseable; oracle = RFC 7233 resolver written from C03",
-        "harnesses": {"k1_closed": "bytes=1-2", "k1_from": "bytes=1-", "k1_suffix": "bytes=-1", "k1_other_unit": "items=1-2 / bytes=12", "k1_signed_positions": "bytes=+1-2 / bytes=1-+2 / bytes=-+2"},
-        "thorough": {"k1_two_ows": "bytes=1-2, \\t-3", "k1_leading_ows": "bytes= \\t1-2", "k1_two_from": "bytes=1-,2-3"},
+        "what": "range::parse on the real `str` code (split / find / trim_matches / slicing), parse_pos stubbed so every number "
+                "is an unconstrained u64 or unparseable; oracle = RFC 7233 resolver written from C03.  The real parse_pos (digit loop, saturation) "
+                "on all ASCII strings of <= 4 bytes and on the 20-digit values around 2^64",
+        "harnesses": {"k1_closed": "bytes=1-2", "k1_from": "bytes=1-", "k1_suffix": "bytes=-1", "k1_other_unit": "items=1-2 / bytes=12", "k1_signed_positions": "bytes=+1-2 / bytes=1-+2 / bytes=-+2 (real parse_pos)",
+                      "k1p_parse_pos_ascii_len_le_4": "parse_pos: ascii, len <= 4", "k1p_parse_pos_around_2_64": "parse_pos: 1844674407370955161d, 23 nines"},
+        "thorough": {"k1_two_ows": "bytes=1-2, \\t-3", "k1_leading_ows": "bytes= \\t1-2", "k1_two_from": "bytes=1-,2-3", "k1_ows_before_comma": "bytes=1-2 \\t, -3"},
         "tags": ["C03", "C02", "C13"],
         "bound": "complete in all numbers and the entity length for each header template; bounded to the listed template shapes (1 spec; 2 specs with OWS in the thorough tier)",
         "functions": [{"fn": "range::parse", "source": "src/range.rs", "engine": "kani"}],
-        "trusted": ["#[kani::stub(<u64 as FromStr>::from_str)]: number lexing replaced by an unconstrained Result<u64, _> (kani/k_range.rs)"],
+        "trusted": ["#[kani::stub(parse_pos)] in the template harnesses: number lexing replaced by an unconstrained Option<u64> (kani/k_range.rs); parse_pos itself is checked by the k1p harnesses (bounded) and proved by Verus (unit range)"],
     },
     "K4": {
         "what": "parse_qvalue (src/lib.rs) on every ASCII string of length <= 6 against the RFC 7231 5.3.1 grammar; no panic, grammatical qvalues get their value",
